@@ -60,8 +60,10 @@ Oracle boundaries (cases the statement leaves open: every reading is accepted, t
   preferred to every fully evaluated infeasible point.  This is an allowed reading ("the measure over what was
   evaluated, constraints being evaluated in order"), hence not flagged; such databases are counted in the outcome
   classes "I/partial-point-reported-although-a-full-one-exists" and the sharper sub-class
-  "...-and-it-violates-a-recorded-constraint" (missing first constraint, later one violated).  Structural
-  invariants (recorded point, flag, values of that very point) still apply to them.
+  "...-whose-measure-is-below-the-violation-recorded-at-the-reported-point" (first constraint missing, a later one
+  recorded and violated by more than the whole measure of a fully evaluated point: no completion of the missing
+  values makes the reported point minimal).  Structural invariants (recorded point, flag, values of that very
+  point) still apply to them.
 * A fully evaluated point with a NaN constraint has no defined measure (the code uses +inf, the formula gives NaN):
   minimality is neither demanded from it nor against it.
 * F != {} and the reported point has no usable objective while W != {}: "strictly smaller than no value" is open;
@@ -70,6 +72,8 @@ Oracle boundaries (cases the statement leaves open: every reading is accepted, t
 * Pareto: the statement only forbids dominated reported points (soundness).  Non-dominated points that are not
   reported (the code drops both members of a duplicated objective vector) and the ValueError of ParetoFront on an
   empty front are counted as outcomes, not flagged.  An infeasible reported point is not forbidden either (counted).
+* OptimizationResult.objective_name is not part of the statement and is not checked (it stays "-f" under original
+  reporting when the reported point has no objective value).
 * Vector-valued objectives in `optimum` (the code compares Euclidean norms) are outside the statement.
 """
 from __future__ import annotations
@@ -102,10 +106,11 @@ FULL = {
     "h": ["-", "zero", "tol", "big"],
 }
 # reduced alphabets: the satisfied representative is the on-tolerance value (the sharper one)
-RED_A = {"f": FULL["f"], "g": ["-", "tol", "tol+", "big", "nan"], "h": ["-", "tol", "big"]}
+RED_A = {"f": FULL["f"], "g": ["-", "tol", "tol+", "big"], "h": ["-", "tol", "big"]}
+RED_E = {"f": FULL["f"], "g": FULL["g"], "g2": FULL["g2"], "h": ["-", "tol", "big"]}
 RED_B = {"f": FULL["f"], "g": ["-", "tol", "tol+", "big"], "g2": ["-", "ok,tol", "big2,mid"], "h": ["tol", "big"]}
 RED_C = {"f": FULL["f"], "g": ["-", "tol", "tol+", "big"], "h": ["tol", "big"]}
-RED_D = {"f": FULL["f"], "g": ["-", "tol", "big"], "g2": ["-", "ok,tol", "big2,mid"], "h": ["-", "big"]}
+RED_D = {"f": ["-", "a", "nan"], "g": ["-", "tol", "big"], "g2": ["ok,tol", "big2,mid"], "h": ["-", "big"]}
 
 ALL_CONFIGS = [(s, g, r) for s in ("min", "max") for g in ("none", "all", "even") for r in ("float", "array")]
 SEL_CONFIGS = [("min", "even", "float"), ("max", "even", "float")]
@@ -133,7 +138,7 @@ def spaces(thorough: bool) -> list[dict]:
         sp += [
             {"id": "S1-g/n3", "shape": ["g"], "alpha": FULL, "n": [3], "configs": "selection"},
             {"id": "S2-h/n3", "shape": ["h"], "alpha": FULL, "n": [3], "configs": "selection"},
-            {"id": "S4-g,g2,h/n2", "shape": ["g", "g2", "h"], "alpha": FULL, "n": [2], "configs": "selection"},
+            {"id": "S4-g,g2,h/n2-reduced", "shape": ["g", "g2", "h"], "alpha": RED_E, "n": [2], "configs": "selection"},
             {"id": "S3-g,h/n3-reduced", "shape": ["g", "h"], "alpha": RED_A, "n": [3], "configs": "selection"},
             {"id": "S4-g,g2,h/n3-reduced", "shape": ["g", "g2", "h"], "alpha": RED_D, "n": [3], "configs": "selection"},
         ]
@@ -271,8 +276,10 @@ def materialize(shape, tokens, ti, te, va, grad: str, srepr: str, obj_key: str):
 
 def same(got, exp) -> bool:
     """Bitwise-equal values (None == nothing recorded); shape and NaN sensitive."""
+    if got is exp:  # the very object that was stored
+        return True
     if got is None or exp is None:
-        return got is None and exp is None
+        return False
     a, b = np.asarray(got), np.asarray(exp)
     return a.shape == b.shape and a.dtype.kind == b.dtype.kind and bool(np.array_equal(a, b, equal_nan=True))
 
@@ -369,8 +376,10 @@ def check_database(problem, cfg: dict, va: dict) -> tuple[str, list[tuple[str, s
                     outcome = "I/only-partially-evaluated-points"
                 else:
                     outcome = "I/partial-point-reported-although-a-full-one-exists"
-                    if any(recs[istar][c] is not None and not sat(KIND[c], recs[istar][c], ti, te) for c in shape):
-                        outcome += "-and-it-violates-a-recorded-constraint"
+                    # lower bound of the measure of i* whatever its missing values are: the recorded violations
+                    lower = measure([c for c in shape if recs[istar][c] is not None], recs[istar], ti, te)
+                    if lower is not None and any(m < lower * (1.0 - SLACK) for m in defined.values()):
+                        outcome += "-whose-measure-is-below-the-violation-recorded-at-the-reported-point"
             elif m_star is None:
                 outcome = "I/NaN-point-reported" + ("-although-a-measurable-one-exists" if defined else "")
             else:
@@ -415,9 +424,6 @@ def check_database(problem, cfg: dict, va: dict) -> tuple[str, list[tuple[str, s
         expected = s if (s is None or not maximize or reporting == "standardized") else -s
         if not same_scalar(r.f_opt, expected):
             bad.append(("result-consistency", api + ".f_opt", f"f_opt={r.f_opt!r}, expected {expected!r} (standardized value recorded at point {j}: {s!r}, sense={cfg['sense']})"))
-        exp_name = "f" if (not maximize or reporting == "original") else "-f"
-        if r.objective_name != exp_name:
-            bad.append(("result-consistency", api + ".objective_name", f"objective_name={r.objective_name!r}, expected {exp_name!r}"))
         for c in shape:
             if not same((r.constraint_values or {}).get(c), recorded(j, c)):
                 bad.append(("values-of-that-point", api + ".constraint_values", f"{c}={(r.constraint_values or {}).get(c)!r}, recorded at point {j}: {recorded(j, c)!r}"))
@@ -475,19 +481,27 @@ def run_db_case(cfg: dict, tally) -> None:
         tally.violation({"invariant": "harness-error", "where": f"{type(e).__name__}: {str(e)[:80]}"}, cfg, traceback.format_exc())
         return
     key = (cfg["shape"], cfg["tol_index"], cfg["sense"], cfg["grad"], cfg["srepr"], cfg["records"])
-    tally.case(key, nontrivial=nontrivial_db(cfg["records"]), outcome=outcome, sample=cfg if (len(cfg["records"]) > 1 and nontrivial_db(cfg["records"])) else None)
+    tally.case(key, nontrivial=nontrivial_db(cfg["records"]), outcome=outcome, sample=cfg if (len(cfg["records"]) > 1 and cfg["shape"] and outcome.startswith(("F/tie", "I/least"))) else None)
     tally.count("results_checked", 2)
     if not bad:
         return
-    # a failure is believed only when a freshly built problem shows it too (the workers reuse problems)
-    fresh = build_problem(cfg["shape"], *cfg["tol"], cfg["sense"] == "max")
-    _, bad2, _ = check_database(fresh, cfg, va)
-    if {b[:2] for b in bad} != {b[:2] for b in bad2}:
-        tally.violation({"invariant": "harness-error", "where": "reused problem and fresh problem disagree"}, cfg, f"reused: {bad}\nfresh: {bad2}")
+    # a failure is believed only when a freshly built problem shows it too (the workers reuse problems); a
+    # (situation, invariant, api) class confirmed 3 times on fresh problems in this worker is then trusted
     situation = situation_of(outcome)
+    classes = {(situation, *b[:2]) for b in bad}
+    if any(_CONFIRMED.get(c, 0) < 3 for c in classes):
+        fresh = build_problem(cfg["shape"], *cfg["tol"], cfg["sense"] == "max")
+        _, bad2, _ = check_database(fresh, cfg, va)
+        if {b[:2] for b in bad} != {b[:2] for b in bad2}:
+            tally.violation({"invariant": "harness-error", "where": "reused problem and fresh problem disagree"}, cfg, f"reused: {bad}\nfresh: {bad2}")
+        for c in classes:
+            _CONFIRMED[c] = _CONFIRMED.get(c, 0) + 1
+        tally.count("failures_reexecuted_on_fresh_problem")
+    else:
+        bad2 = bad
     for inv, api, msg in bad2:
         tally.violation(
-            {"invariant": inv, "situation": situation, "api": api.split("[")[0].split(".optimum.")[0]},
+            {"invariant": inv, "situation": situation, "api": "history.optimum" if api.startswith("history.optimum") else api.split("[")[0]},
             {"part": "db", **cfg, "reporting_api": api},
             f"{inv} [{api}] {msg}\n  shape={cfg['shape']} tol={cfg['tol']} sense={cfg['sense']} grad={cfg['grad']} srepr={cfg['srepr']}\n  records (f, {', '.join(cfg['shape'])}) in arrival order: {cfg['records']}",
         )
@@ -495,6 +509,7 @@ def run_db_case(cfg: dict, tally) -> None:
 
 _SPACES: dict = {}
 _VA_INDEX = 0
+_CONFIRMED: dict = {}
 
 
 def run_db_unit(unit: dict, tally) -> None:
@@ -689,7 +704,7 @@ def run(ctx):
     only = getattr(ctx, "only", None)
     units = []
     if not only or "db" in only:
-        units += list(db_units(space_list))
+        units += list(db_units([s for s in space_list if not (only and "small" in only and s["configs"] != "full")]))
     pareto_n = [1, 2, 3, 4]
     front_n = [1, 2, 3]
     front_pairs = PAIRS if ctx.thorough else [(0.0, 0.0), (0.0, 1.0), (1.0, 0.0), (1.0, 1.0)]
